@@ -394,6 +394,16 @@ class Judge:
                 b = self.accepts(p, v)
                 if a != b:
                     self.viol("pickle_roundtrip", spec, {"why": "validate behaves differently after unpickling", "tag": tag})
+            # the copies are complete specs: what *they* generate is a member too (bounds that exclude 0 make a forgotten
+            # value constructor visible)
+            import copy as _copy
+
+            for how, q in (("pickle", p), ("deepcopy", _copy.deepcopy(spec)), ("replace", spec.replace())):
+                self.ev("copy_generates_member")
+                gq = q.generate_value()
+                probs = SM.problems(spec, np.asarray(gq))
+                if probs:
+                    self.viol("copy_generates_member", spec, {"copied_by": how, "problems": probs[:2]}, qualifier=how)
         except Exception as e:
             self.viol("pickle_roundtrip", spec, {"error": repr(e)[:200]}, qualifier=cls)
         # 6. conversions
@@ -634,6 +644,15 @@ class Judge:
             elif self.eq(p, spec, "nested_pickle") is False:
                 self.viol("pickle_roundtrip", spec, {"why": "unpickled nested spec != original"})
             p.validate(g)
+            import copy as _copy
+
+            for how, q in (("pickle", p), ("deepcopy", _copy.deepcopy(spec)), ("replace", spec.replace())):
+                self.ev("copy_generates_member")
+                gq = q.generate_value()
+                try:
+                    spec.validate(gq)
+                except Exception as e2:
+                    self.viol("copy_generates_member", spec, {"copied_by": how, "error": repr(e2)[:200]}, qualifier="nested_" + how)
         except Exception as e:
             self.viol("pickle_roundtrip", spec, {"error": repr(e)[:200]}, qualifier="nested")
         # conversions of the generated value
